@@ -97,8 +97,9 @@ FLOATS = [("1.5", "1.5"), ("+2.50", "2.5"), ("-0.25", "-0.25"), ("7.", "7"), ("1
 # ---------------------------------------------------------------------------------------------
 
 def quote(s):
-    if "'" in s and '"' not in s:
-        return '"' + s.replace("\\", "\\\\") + '"'
+    if "'" in s or ('"' in s and len(s) % 2 == 1):
+        # double-quoted: `\"` is the escape of the quote, symmetric to `\'` in single-quoted strings
+        return '"' + s.replace("\\", "\\\\").replace('"', '\\"') + '"'
     return "'" + s.replace("\\", "\\\\").replace("'", "\\'") + "'"
 
 
@@ -811,7 +812,7 @@ def gen_meta(rng, assoc_clash=None):
 
 
 def gen_inline(rng):
-    strs = ["a", "+", "==", "if", "x y", "a'b", 'q"r', "\\", "\\n", "a\\tb", "\\\\", "ü", "*/", "{", "terminals"]
+    strs = ["a", "+", "==", "if", "x y", "a'b", 'q"r', '"', "x\"y'z", "\\", "\\n", "a\\tb", "\\\\", "ü", "*/", "{", "terminals"]
     terms = []
     used = rng.sample(strs, rng.randint(2, 5))
     for i, s in enumerate(used):
